@@ -32,6 +32,8 @@ SIMPLE = {
     'things:data_loader': ('x', ['child']),
     'things:mutating': ('x', ['child']),
     'things:kwf': ('a', ['z0', 'z1']),
+    'things:kwnames': ('x', ['_from', '_in', 'child']),
+    'things:Lambda': ('x', ['y']),
     'things:SubCM.make': ('x', ['child']),
     'things:BaseCM.make': ('x', ['child']),
     'things:kwg': ('a', ['z0', 'z1']),
